@@ -7,7 +7,7 @@ from ..model import canonical_name
 from ..symtext import Expander
 
 from ..absint import Interp, Undecided, Raised, Opaque, ListOfLen
-from ..astutil import where, calls_in, call_name
+from ..astutil import bound_args, where, calls_in, call_name
 from ..model import AnalysisError, unparse, walk_no_nested
 
 # one representative per order type; 10 is there because its text is longer than
@@ -108,7 +108,8 @@ def format_cardinality_rule(prog, rep):
     grid = settings_grid()
     n_ok = 0
     for val in grid:
-        it = Interp(f.node, module_funcs=dict((k, v.node) for k, v in f.module.functions.items()))
+        it = Interp(f.node, module_funcs=dict((k, v.node) for k, v in f.module.functions.items()),
+                        module_assigns=dict((k, v[-1]) for k, v in f.module.assigns.items() if v))
         try:
             kind, res = _run(it, val)
         except Undecided as exc:
@@ -171,7 +172,8 @@ def cardinality_validation_rule(prog, rep):
     for card in cards:
         for count in [0, 1, 2, 3, 4, 10, 11]:
             obj = Opaque("obj", {"children": ListOfLen([0] * count)})
-            it = Interp(f.node, module_env={}, builtins=builtins, module_funcs=dict((k, v.node) for k, v in f.module.functions.items()))
+            it = Interp(f.node, module_env={}, builtins=builtins, module_funcs=dict((k, v.node) for k, v in f.module.functions.items()),
+                        module_assigns=dict((k, v[-1]) for k, v in f.module.assigns.items() if v))
             try:
                 kind, res = _run(it, obj, card, "children", "warning", Opaque("id"))
             except Undecided as exc:
@@ -212,9 +214,11 @@ def cardinality_validation_rule(prog, rep):
         ok = False
         detail = "no call to _cardinality_validation"
         call_txt = None
+        cv_params = vmod.functions["_cardinality_validation"].params if "_cardinality_validation" in vmod.functions else []
         for c in calls:
-            if len(c.args) >= 5:
-                a = [x.text(y) for y in c.args]
+            ba = bound_args(c, cv_params)
+            if ba is not None and len(ba) >= 5 and all(y is not None for y in ba[:5]):
+                a = [x.text(y) for y in ba]
                 ok = (a[0] == rf.params[0] and a[1] == "%s.%s" % (rf.params[0], field)
                       and a[2] == repr(attr) and a[3] == "LABEL_WARNING" and a[4] == "IssueID.%s" % name)
                 detail = "_cardinality_validation(%s)" % ", ".join(a)
@@ -274,7 +278,8 @@ def cardinality_roundtrip(prog, rep, which=("xml", "dict")):
                   "str(tuple)", se.where)
         for c in forms:
             text = str(c)
-            it = Interp(f.node, module_funcs=dict((k, v.node) for k, v in f.module.functions.items()))
+            it = Interp(f.node, module_funcs=dict((k, v.node) for k, v in f.module.functions.items()),
+                        module_assigns=dict((k, v[-1]) for k, v in f.module.assigns.items() if v))
             try:
                 kind, res = _run(it, text)
             except Undecided as exc:
@@ -286,7 +291,8 @@ def cardinality_roundtrip(prog, rep, which=("xml", "dict")):
                       "returns %r, the writer wrote %r" % (res, c) if kind == "ok" else "raises %s" % res, f.where,
                       witness="set cardinality %r, save as XML, load" % (c,))
         for text in ["", None, "()", "(1)", "(a, b)", "(1, 2, 3)", "(-1, 2)", "(3, 1)", "None", "(None, None)"]:
-            it = Interp(f.node, module_funcs=dict((k, v.node) for k, v in f.module.functions.items()))
+            it = Interp(f.node, module_funcs=dict((k, v.node) for k, v in f.module.functions.items()),
+                        module_assigns=dict((k, v[-1]) for k, v in f.module.assigns.items() if v))
             try:
                 kind, res = _run(it, text)
             except Undecided as exc:
@@ -301,7 +307,8 @@ def cardinality_roundtrip(prog, rep, which=("xml", "dict")):
         rep.saw_function(f)
         for c in forms:
             for render in (list(c), tuple(c)):
-                it = Interp(f.node, module_funcs=dict((k, v.node) for k, v in f.module.functions.items()))
+                it = Interp(f.node, module_funcs=dict((k, v.node) for k, v in f.module.functions.items()),
+                        module_assigns=dict((k, v[-1]) for k, v in f.module.assigns.items() if v))
                 try:
                     kind, res = _run(it, render)
                 except Undecided as exc:
@@ -314,7 +321,8 @@ def cardinality_roundtrip(prog, rep, which=("xml", "dict")):
                           witness="set cardinality %r, save as JSON/YAML, load" % (c,))
         for val in [None, [], [1], [1, 2, 3], ["a", "b"], [-1, 2], [3, 1], "text", 3, 1.5, True, {}, [None, None],
                     ["None", 2], [1, "None"]]:
-            it = Interp(f.node, module_funcs=dict((k, v.node) for k, v in f.module.functions.items()))
+            it = Interp(f.node, module_funcs=dict((k, v.node) for k, v in f.module.functions.items()),
+                        module_assigns=dict((k, v[-1]) for k, v in f.module.assigns.items() if v))
             try:
                 kind, res = _run(it, val)
             except Undecided as exc:
